@@ -331,7 +331,7 @@ class ProgGen:
                 text = '  function %s(i: int, acc: int, n: int): int = Main.%sc(i)\n  function %sc(i: int): int = if %s %s %d { i } else { Main.%sc(%s) }' % (
                     name, name, name, i, exit_op, bound, name, step)
             else:
-                upd2 = r.pick(['acc + 1', 'acc + i', 'acc + 3', 'acc * 2 + 1'])
+                upd2 = r.pick(['acc + 1', 'acc + i', 'acc + 3', 'acc * 2 + 1', 'acc + i * i', '(acc + (i + 1) * (i * 2)) % 100000', 'acc + (i * 3) * (i - 2)'])
                 ret2 = r.pick(['acc', 'acc + i', 'i'])
                 text = '  function %s(i: int, acc: int, n: int): int = Main.%sc(i, acc)\n  function %sc(i: int, acc: int): int = if %s %s %d { %s } else { Main.%sc(%s, %s) }' % (
                     name, name, name, i, exit_op, bound, ret2, name, step, upd2)
@@ -354,6 +354,22 @@ class ProgGen:
                     % (name, name, name, i, op, n, name, step, r.pick(['a', 'a', 'a + i', 'a + 1'])))
             return text, name, op, stride
         step = '%s %s %d' % (i, '+' if stride > 0 else '-', abs(stride))
+        if r.chance(1, 6):
+            # a struct-typed loop variable rebuilt in every iteration (scalar replacement / escape analysis of loop values)
+            self.features.add('loop-struct-variable')
+            self.need_lpair = True
+            guard = '%s %s %s' % (i, {'<': '>=', '<=': '>', '>': '<=', '>=': '<', '!=': '=='}[op], n)
+            text = ('  function %s(i: int, acc: int, n: int): int = Main.%sp(LPair.init(acc, 1), i, n)\n'
+                    '  function %sp(p: LPair, i: int, n: int): int = if %s { p.a * 3 + p.b } else { Main.%sp(LPair.init(p.b %% 1000, (p.a + p.b + i) %% 1000), %s, n) }'
+                    % (name, name, name, guard, name, step))
+            return text, name, op, stride
+        if r.chance(1, 6):
+            # products of two values that are both affine in the induction variable (not a derived induction variable)
+            self.features.add('loop-iv-product')
+            prod = r.pick(['%s * %s' % (i, i), '(%s + 1) * (%s * 2)' % (i, i), '(%s * %d) * (%s + %d)' % (i, mult, i, off), '(%s - 3) * (%s - 3)' % (i, i)])
+            upd = '(%s + %s) %% 100000' % (acc, prod)
+            body = 'if %s %s %s { Main.%s(%s, %s, %s) } else { %s }' % (i, op, n, name, step, upd, n, acc)
+            return '  function %s(i: int, acc: int, n: int): int = %s' % (name, body), name, op, stride
         if kind == 0:      # sum of a derived induction variable
             upd = '%s + (%s * %d + %d)' % (acc, i, mult, off)
         elif kind == 1:    # pure counting loop: result is the final value of i
@@ -433,6 +449,8 @@ class ProgGen:
             prints.append('Process.println(%s)' % self.gen_str(Ctx(), 2))
         main = '  function main(): unit = {\n%s\n  }' % '\n'.join('    %s;' % p for p in prints)
         imports = 'import { Pair } from std.tuples;\n' if self.o['tuples'] else ''
+        if getattr(self, 'need_lpair', False):
+            decls = list(decls) + ['class LPair(val a: int, val b: int) {}']
         text = imports + '\n'.join(decls) + '\nclass Main {\n' + '\n'.join(body) + '\n' + main + '\n}\n'
         return text
 
@@ -759,6 +777,83 @@ def gen_infer_program(rng, nfun=8):
         prints.append('    Process.println(Str.fromInt(Main.t%d()));' % i)
     text = INFER_PRELUDE + 'class Main {\n' + INFER_HELPERS + '\n'.join(funs) + '\n  function main(): unit = {\n' + '\n'.join(prints) + '\n  }\n}\n'
     return {'sources': {'Main': text}, 'entry': 'Main', 'features': ['inference']}
+
+
+ORDER_PRELUDE = '''class Bx(val v: int) {
+  function mk(tag: int, v: int): Bx = { Process.println("mk" :: Str.fromInt(tag)); Bx.init(v) }
+  method add(o: Bx): Bx = Bx.init(this.v + o.v)
+  method plus(k: int): int = this.v + k
+  method three(a: int, b: int, c: int): int = this.v + a * 100 + b * 10 + c
+}
+class Pr2(val a: int, val b: int) {}
+'''
+
+
+def gen_order_program(rng, nfun=8):
+    """Evaluation order: every sub-expression prints a unique tag when it is evaluated (`Main.t(tag, value)`), so the order
+    in which receiver, callee, arguments, operands, fields and conditions are evaluated - and which ones are skipped by
+    && / || / if - is visible in the output."""
+    cnt = [0]
+
+    def t(v):
+        cnt[0] += 1
+        return 'Main.t(%d, %s)' % (cnt[0], v)
+
+    def tb(v):
+        cnt[0] += 1
+        return 'Main.tb(%d, %s)' % (cnt[0], v)
+
+    def bx(v):
+        cnt[0] += 1
+        return 'Bx.mk(%d, %s)' % (cnt[0], v)
+
+    def ie(d):
+        k = rng.below(12) if d > 0 else 99
+        if k == 0:
+            return '(%s %s %s)' % (ie(d - 1), rng.pick(['+', '-', '*']), ie(d - 1))
+        if k == 1:
+            return '%s.plus(%s)' % (bx(ie(d - 1)), ie(d - 1))                       # receiver with an effect, then the argument
+        if k == 2:
+            return '%s.add(%s).v' % (bx(ie(d - 1)), bx(ie(d - 1)))
+        if k == 3:
+            return '%s.three(%s, %s, %s)' % (bx(str(rng.below(5))), ie(d - 1), t(str(rng.below(9))), ie(d - 1))
+        if k == 4:
+            return 'Main.f3(%s, %s, %s)' % (ie(d - 1), ie(d - 1), t(str(rng.below(9))))
+        if k == 5:
+            return '{ let g = %s; g }(%s)' % ('Main.mkf(%d)' % rng.below(9), ie(d - 1)) # closure callee with an effect, then the argument
+        if k == 6:
+            return '(if %s { %s } else { %s })' % (be(d - 1), ie(d - 1), ie(d - 1))
+        if k == 7:
+            return '{ let p = Pr2.init(%s, %s); p.a * 10 + p.b }' % (ie(d - 1), ie(d - 1))
+        if k == 8:
+            return '{ let (x, y) = (%s, %s); x - y }' % (ie(d - 1), ie(d - 1))
+        if k == 9:
+            return 'Main.mkf(%d)(%s)' % (rng.below(9), ie(d - 1))
+        return t(str(rng.range(0, 9)))
+
+    def be(d):
+        k = rng.below(6) if d > 0 else 99
+        if k == 0:
+            return '(%s && %s)' % (be(d - 1), be(d - 1))
+        if k == 1:
+            return '(%s || %s)' % (be(d - 1), be(d - 1))
+        if k == 2:
+            return '(%s %s %s)' % (ie(d - 1), rng.pick(['<', '==', '>=']), ie(d - 1))
+        if k == 3:
+            return '!%s' % tb(rng.pick(['true', 'false']))
+        return tb(rng.pick(['true', 'false']))
+
+    funs, prints = [], []
+    for i in range(nfun):
+        funs.append('  function e%d(): int = %s' % (i, ie(3)))
+        prints.append('    Process.println(Str.fromInt(Main.e%d()));' % i)
+    text = (ORDER_PRELUDE + 'class Main {\n'
+            '  function t(tag: int, v: int): int = { Process.println("t" :: Str.fromInt(tag)); v }\n'
+            '  function tb(tag: int, v: bool): bool = { Process.println("b" :: Str.fromInt(tag)); v }\n'
+            '  function f3(a: int, b: int, c: int): int = a * 100 + b * 10 + c\n'
+            '  function mkf(tag: int): (int) -> int = { Process.println("f" :: Str.fromInt(tag)); (x) -> x + tag }\n'
+            + '\n'.join(funs) + '\n  function main(): unit = {\n' + '\n'.join(prints) + '\n  }\n}\n')
+    return {'sources': {'Main': text}, 'entry': 'Main', 'features': ['evaluation-order']}
 
 
 def gen_layout_program(rng, nty=4, single_field=True):
